@@ -19,7 +19,7 @@ import (
 // breaks the obligation that pins the expected lists (Props/C06, C08, C09).
 func doShape(repo, out string) {
 	pkgs := []string{".", "microqr", "rmqr", "internal/bitmap", "internal/bitstream", "internal/reedsolomon", "internal/reedsolomon/element", "internal/reedsolomon/poly"}
-	var panics, writes []string
+	var panics, writes, imgUses []string
 	for _, p := range pkgs {
 		dir := filepath.Join(repo, p)
 		ents, err := os.ReadDir(dir)
@@ -42,13 +42,35 @@ func doShape(repo, out string) {
 			files = append(files, f)
 		}
 		// package-level variable names
+		imgGlobals := map[string]bool{}
 		globals := map[string]bool{}
 		for _, f := range files {
 			for _, d := range f.Decls {
 				if g, ok := d.(*ast.GenDecl); ok && g.Tok == token.VAR {
 					for _, s := range g.Specs {
-						for _, n := range s.(*ast.ValueSpec).Names {
+						vs := s.(*ast.ValueSpec)
+						for _, n := range vs.Names {
 							globals[n.Name] = true
+						}
+						// tables of *bitmap.Image (declared type or composite literal type mentions bitmap.Image)
+						txt := ""
+						if vs.Type != nil {
+							txt += render(fset, vs.Type)
+						}
+						for _, v := range vs.Values {
+							if cl, ok := v.(*ast.CompositeLit); ok && cl.Type != nil {
+								txt += render(fset, cl.Type)
+							}
+							if ue, ok := v.(*ast.UnaryExpr); ok {
+								if cl, ok := ue.X.(*ast.CompositeLit); ok && cl.Type != nil {
+									txt += render(fset, cl.Type)
+								}
+							}
+						}
+						if strings.Contains(txt, "bitmap.Image") {
+							for _, n := range vs.Names {
+								imgGlobals[n.Name] = true
+							}
 						}
 					}
 				}
@@ -129,6 +151,31 @@ func doShape(repo, out string) {
 						}
 					}
 				}
+				// every simple statement that mentions a table of images, verbatim
+				var visit func(n ast.Node)
+				mentions := func(n ast.Node) bool {
+					found := false
+					ast.Inspect(n, func(m ast.Node) bool {
+						if id, ok := m.(*ast.Ident); ok && imgGlobals[id.Name] && !local[id.Name] {
+							found = true
+						}
+						return !found
+					})
+					return found
+				}
+				visit = func(n ast.Node) {
+					ast.Inspect(n, func(m ast.Node) bool {
+						switch st := m.(type) {
+						case *ast.AssignStmt, *ast.ExprStmt, *ast.ReturnStmt, *ast.DeclStmt:
+							if mentions(st) {
+								imgUses = append(imgUses, full+": "+strings.Join(strings.Fields(render(fset, st)), " "))
+							}
+							return false
+						}
+						return true
+					})
+				}
+				visit(fn.Body)
 				np := 0
 				wset := map[string]bool{}
 				ast.Inspect(fn.Body, func(n ast.Node) bool {
@@ -168,6 +215,7 @@ func doShape(repo, out string) {
 	}
 	sort.Strings(panics)
 	sort.Strings(writes)
+	sort.Strings(imgUses)
 	q := func(l []string) string {
 		s := make([]string, len(l))
 		for i, x := range l {
@@ -179,6 +227,7 @@ func doShape(repo, out string) {
 	sb.WriteString("-- GENERATED by /verif/translator from /repo's Go source. DO NOT EDIT.\nnamespace QRV.Gen.Shape\n\n")
 	fmt.Fprintf(&sb, "/-- functions containing explicit `panic(` calls, with their count -/\ndef panicSites : List String := %s\n\n", q(panics))
 	fmt.Fprintf(&sb, "/-- functions assigning to package-level variables (function->variables) -/\ndef globalWrites : List String := %s\n\n", q(writes))
+	fmt.Fprintf(&sb, "/-- every statement of the library that mentions a package-level table of bitmap images (how the tables are read, cloned, passed on) -/\ndef imageTableUses : List String := %s\n\n", q(imgUses))
 	ms := make([]string, len(mismatches))
 	copy(ms, mismatches)
 	fmt.Fprintf(&sb, "def mismatches : List String := %s\n\nend QRV.Gen.Shape\n", q(ms))
